@@ -33,29 +33,35 @@ def tasks(tier, seed):
     q = tier == 'quick'
     for L in (1, 2, 3):
         for cplx in (False, True):
-            if cplx and L == 3 and q:
-                continue
+            if cplx and L == 3:
+                continue      # complex entries at L = 3: polynomial sizes exhaust memory (a worker was killed); stated bound
             ts.append(dict(name=f'scalars_L{L}_{"c" if cplx else "r"}', kind='scalars', L=L, d=2, Dmax=2, DW=2, cplx=cplx, cut=3))
     for L in (1, 2, 3):
         for cplx in (False, True):
-            if cplx and L == 3 and q:
+            if cplx and L == 3:
                 continue
             for site in range(L):
                 ts.append(dict(name=f'local1_L{L}_s{site}_{"c" if cplx else "r"}', kind='local1', L=L, site=site, d=2, Dmax=2, DW=2, cplx=cplx, cut=3))
             for site in range(L - 1):
                 ts.append(dict(name=f'local2_L{L}_s{site}_{"c" if cplx else "r"}', kind='local2', L=L, site=site, d=2, Dmax=2, DW=2, cplx=cplx, cut=3))
                 ts.append(dict(name=f'local0_L{L}_b{site}_{"c" if cplx else "r"}', kind='local0', L=L, site=site, d=2, Dmax=2, DW=2, cplx=cplx, cut=3))
-    for L in (1, 2) if q else (1, 2, 3):
+    for L in (1, 2):
         for site in range(L):
             ts.append(dict(name=f'hermitian_L{L}_s{site}', kind='hermitian', L=L, site=site, d=2, Dmax=2, DW=2, cplx=True, cut=3))
     # environment blocks with a bra different from the ket (independent bond profiles): <Y|H_loc X> = <chi[i<-Y]| H |psi[i<-X]>
     for L in (2, 3):
         for cplx in (False, True):
-            if cplx and L == 3 and q:
+            if cplx and L == 3:
                 continue
             for site in range(L):
                 ts.append(dict(name=f'mixed_L{L}_s{site}_{"c" if cplx else "r"}', kind='mixed', L=L, site=site, d=2, Dmax=2, DW=2, cplx=cplx, cut=4))
     ts.append(dict(name='steps_L2', kind='steps', L=2, d=2, Dmax=2, DW=2, cplx=True, cut=3))
+    if not q:
+        for site in range(2):
+            ts.append(dict(name=f'local1_L2_s{site}_r_D3', kind='local1', L=2, site=site, d=2, Dmax=3, DW=3, cplx=False, cut=3))
+            ts.append(dict(name=f'mixed_L2_s{site}_r_D3', kind='mixed', L=2, site=site, d=2, Dmax=3, DW=2, cplx=False, cut=4))
+        ts.append(dict(name='scalars_L2_r_D3', kind='scalars', L=2, d=2, Dmax=3, DW=3, cplx=False, cut=3))
+        ts.append(dict(name='scalars_L2_r_d3', kind='scalars', L=2, d=3, Dmax=2, DW=2, cplx=False, cut=3))
     return ts
 
 
@@ -353,7 +359,7 @@ def evidence(tier, seed, total, per_task, val):
                                'compute_right_operator_blocks', 'apply_local_hamiltonian', 'apply_local_bond_contraction',
                                'merge_mps_tensor_pair', 'merge_mpo_tensor_pair'],
             bounds=dict(L='1..3', d=2, D_state='<= 2, all profiles, bra and ket independent', D_operator='<= 2, all profiles',
-                        sites='every site / neighbouring pair / bond', complex_entries='L <= 2 quick, L <= 3 thorough; real entries L <= 3'),
+                        sites='every site / neighbouring pair / bond', complex_entries='L <= 2 (L = 3 exhausts memory); real entries L <= 3'),
             stubs=['sqrt contract in norm()'],
             distinct_nontrivial=int(total.get('nontrivial_paths')),
             rule='one case = (quantity, L, site, bond profiles); entries are universally quantified, hence every block-sparse instance '
